@@ -66,6 +66,12 @@ CallOK(KK, s, f, n, isLost, ret, m) ==
 NextFs(KK, s, f, n, ret)   == IF ret = "msg" THEN f + Verdict(KK, s, f, n).len ELSE f
 NextLost(isLost, ret)      == isLost \/ ret = "err"
 
+\* "need buffer" is an answer about room: it is legal only when the decoder has no
+\* consumed byte left to write into (free = curr - pos - len after the call; the
+\* command decoder needs two bytes for its header).  How the region is cut into
+\* vector parts, zero-length parts included, is no reason to ask for room.
+NobufOK(KK, free) == IF KK.cmd THEN free < 2 ELSE free = 0
+
 \* writes stay in the consumed part: highest changed offset below final curr
 WriteOK(chgHi, newCurr) == chgHi < newCurr
 
@@ -220,7 +226,8 @@ Apply(r, a, arg, full) ==
   /\ Answer(a, arg,
             [ret |-> r.ret,
              msg |-> IF r.ret = "msg" THEN SubSeq(r.reg, r.pos + 1, r.pos + r.dmsg) ELSE <<>>,
-             safe |-> r.safe, chg_hi |-> ChgHi(reg, r.reg), curr |-> r.curr])
+             safe |-> r.safe, chg_hi |-> ChgHi(reg, r.reg), curr |-> r.curr,
+             slack |-> r.curr - r.pos - r.dlen])
 
 \* an odd start address only matters at a message start with slack in front
 MisMatters == ~K.cmd /\ (dlen = 0 \/ dmsg = dlen) /\ curr > pos + dlen
@@ -256,6 +263,7 @@ AnswerAllowed ==
   obs.a \in {"call", "peek"} =>
     /\ obs.exp.safe
     /\ WriteOK(obs.exp.chg_hi, obs.exp.curr)
+    /\ (obs.a = "call" /\ obs.exp.ret = "nobuf" /\ ~lost) => NobufOK(K, obs.exp.slack)
 AnswerHonest ==     \* evaluated as an action property: answer against the state before
   [][ (obs'.a = "call" /\ obs' # obs) =>
         CallOK(K, stream, fs, fedn, lost, obs'.exp.ret, obs'.exp.msg) ]_vars
